@@ -3,6 +3,7 @@
 import json, os, glob, importlib, sys
 HERE = os.path.dirname(os.path.abspath(__file__))
 sys.path.insert(0, HERE)
+from vsched.gen import GEN_NOTE  # noqa: E402
 props = [json.loads(l) for l in open(os.path.join(HERE, 'properties.jsonl'))]
 TEXT = {
     'default': ('stateless bounded model checking of the real implementation: every execution of the generated scenario families with at most L deviations '
@@ -20,7 +21,7 @@ for p in props:
     src = open(path).read()
     import importlib
     mod = importlib.import_module('vsched.props.' + pid.lower())
-    rule = getattr(mod, 'RULE', '')
+    rule = getattr(mod, 'RULE', '') + (GEN_NOTE if 'gen.family(' in open(mod.__file__).read() else '')
     assumptions = list(getattr(mod, 'ASSUMPTIONS', []))
     level = 'exploration' if "LEVEL = 'exploration'" in src else 'model_checking'
     tech = {'model_checking': 'stateless deviation-bounded model checking of the implementation (exhaustive schedule/choice enumeration on a virtual asyncio loop)',
